@@ -195,3 +195,396 @@ pub open spec fn nz_unique(prog: Tid, subs: Map<Tid, Term<Sub>>) -> bool {
 pub open spec fn nz_owner_of(owner: Map<Tid, NzPos>, prog: Tid, subs: Map<Tid, Term<Sub>>) -> bool {
     forall |p: NzPos| #[trigger] nz_pos_ok(subs, p) ==> owner.contains_key(nz_tid_at(prog, subs, p)) && owner[nz_tid_at(prog, subs, p)] == p
 }
+
+// ---- pass: duplicate term identifiers ----------------------------------------------------------------------------------------
+
+/// `a` is an order-preserving selection of `b`: a[i] == b[emb[i]], emb strictly increasing
+pub open spec fn nz_sel<T>(a: Seq<T>, b: Seq<T>, emb: Seq<int>) -> bool {
+    &&& emb.len() == a.len()
+    &&& forall |i: int| 0 <= i < a.len() ==> 0 <= #[trigger] emb[i] < b.len() && a[i] == b[emb[i]]
+    &&& forall |i: int, j: int| 0 <= i < j < a.len() ==> #[trigger] emb[i] < #[trigger] emb[j]
+}
+
+pub open spec fn nz_selected<T>(a: Seq<T>, b: Seq<T>) -> bool {
+    exists |emb: Seq<int>| #[trigger] nz_sel(a, b, emb)
+}
+
+/// block `b1` is block `b0` with some defs and some jumps removed (order kept, the kept ones unchanged); nothing else changed
+pub open spec fn nz_dedup_blk(b0: Term<Blk>, b1: Term<Blk>) -> bool {
+    &&& b1.tid == b0.tid
+    &&& b1.term.indirect_jmp_targets == b0.term.indirect_jmp_targets
+    &&& nz_selected(b1.term.defs@, b0.term.defs@)
+    &&& nz_selected(b1.term.jmps@, b0.term.jmps@)
+}
+
+/// the blocks `l1` are an order-preserving selection of the blocks `l0`, each with some defs / jumps removed
+pub open spec fn nz_dedup_blks(l0: Seq<Term<Blk>>, l1: Seq<Term<Blk>>, emb: Seq<int>) -> bool {
+    &&& emb.len() == l1.len()
+    &&& forall |i: int| 0 <= i < l1.len() ==> 0 <= #[trigger] emb[i] < l0.len() && nz_dedup_blk(l0[emb[i]], l1[i])
+    &&& forall |i: int, j: int| 0 <= i < j < l1.len() ==> #[trigger] emb[i] < #[trigger] emb[j]
+}
+
+/// function `s1` is function `s0` with some blocks / defs / jumps removed
+pub open spec fn nz_dedup_sub(s0: Term<Sub>, s1: Term<Sub>) -> bool {
+    &&& s1.tid == s0.tid
+    &&& s1.term.name == s0.term.name
+    &&& s1.term.calling_convention == s0.term.calling_convention
+    &&& exists |emb: Seq<int>| #[trigger] nz_dedup_blks(s0.term.blocks@, s1.term.blocks@, emb)
+}
+
+/// the pass only REMOVES blocks, defs and jumps (frame: every function is still there, everything kept is unchanged and in order)
+pub open spec fn nz_dedup_post(subs0: Map<Tid, Term<Sub>>, subs1: Map<Tid, Term<Sub>>) -> bool {
+    &&& subs1.dom() =~= subs0.dom()
+    &&& forall |k: Tid| #[trigger] subs0.contains_key(k) ==> nz_dedup_sub(subs0[k], subs1[k])
+}
+
+/// proof device: the tids of block `b` = block number `i` of the function under `k`, of its defs and of its jumps are owned by their positions
+pub open spec fn nz_blk_owned(owner: Map<Tid, NzPos>, k: Tid, i: int, b: Term<Blk>) -> bool {
+    &&& owner.contains_key(b.tid) && owner[b.tid] == NzPos::Blk(k, i)
+    &&& forall |d: int| 0 <= d < b.term.defs@.len() ==> owner.contains_key((#[trigger] b.term.defs@[d]).tid) && owner[b.term.defs@[d].tid] == NzPos::Def(k, i, d)
+    &&& forall |j: int| 0 <= j < b.term.jmps@.len() ==> owner.contains_key((#[trigger] b.term.jmps@[j]).tid) && owner[b.term.jmps@[j].tid] == NzPos::Jmp(k, i, j)
+}
+
+pub open spec fn nz_sub_owned(owner: Map<Tid, NzPos>, k: Tid, s: Term<Sub>) -> bool {
+    &&& owner.contains_key(s.tid) && owner[s.tid] == NzPos::Sub(k)
+    &&& forall |i: int| 0 <= i < s.term.blocks@.len() ==> nz_blk_owned(owner, k, i, #[trigger] s.term.blocks@[i])
+}
+
+/// the tid at position `q` of the program occurs at NO other position (program, function, block, def, jump)
+pub open spec fn nz_alone(prog: Tid, subs: Map<Tid, Term<Sub>>, q: NzPos) -> bool {
+    &&& nz_pos_ok(subs, q)
+    &&& forall |p: NzPos| #[trigger] nz_pos_ok(subs, p) && p != q ==> nz_tid_at(prog, subs, p) != nz_tid_at(prog, subs, q)
+}
+
+/// PRECONDITION of the duplicate removal (otherwise it panics "Duplicate of TID .. encountered"): the tid of a FUNCTION is not
+/// used by any other term
+pub open spec fn nz_sub_tids_alone(prog: Tid, subs: Map<Tid, Term<Sub>>) -> bool {
+    forall |k: Tid| #[trigger] subs.contains_key(k) ==> nz_alone(prog, subs, NzPos::Sub(k))
+}
+
+/// proof device: the functions number n.. of the key order have not been visited: a function tid / entry-block tid among them
+/// that occurs nowhere else is not among the known tids
+pub open spec fn nz_later_fresh(known: Set<Tid>, prog: Tid, subs0: Map<Tid, Term<Sub>>, ks: Seq<Tid>, n: int) -> bool {
+    forall |j: int| n <= j < ks.len() ==>
+        (nz_alone(prog, subs0, NzPos::Sub(#[trigger] ks[j])) ==> !known.contains(subs0[ks[j]].tid))
+        && (nz_alone(prog, subs0, NzPos::Blk(ks[j], 0)) ==> !known.contains(subs0[ks[j]].term.blocks@[0].tid))
+}
+
+/// `p` is not a function position / entry-block position of the functions number n..
+pub open spec fn nz_not_later(p: NzPos, ks: Seq<Tid>, n: int) -> bool {
+    forall |j: int| n <= j < ks.len() ==> p != NzPos::Sub(#[trigger] ks[j]) && p != NzPos::Blk(ks[j], 0)
+}
+
+/// PROPERTY CLAUSE "every function still starts with its original entry block", as the duplicate removal keeps it: the entry
+/// block survives (as the first block, with its tid and its hints) WHEN ITS TID OCCURS NOWHERE ELSE in the input
+pub open spec fn nz_dedup_entries(prog: Tid, subs0: Map<Tid, Term<Sub>>, subs1: Map<Tid, Term<Sub>>) -> bool {
+    forall |k: Tid| #[trigger] subs0.contains_key(k) && nz_alone(prog, subs0, NzPos::Blk(k, 0)) ==>
+        subs1[k].term.blocks@.len() > 0 && nz_dedup_blk(subs0[k].term.blocks@[0], subs1[k].term.blocks@[0])
+}
+
+// ---- pass: calls to non-returning functions ------------------------------------------------------------------------------------
+
+/// the jump list contains a return instruction
+pub open spec fn nz_jmps_return(jmps: Seq<Term<Jmp>>) -> bool {
+    exists |j: int| 0 <= j < jmps.len() && (#[trigger] jmps[j]).term is Return
+}
+
+/// some block of the list contains a return instruction
+pub open spec fn nz_blocks_return(blocks: Seq<Term<Blk>>) -> bool {
+    exists |i: int| 0 <= i < blocks.len() && nz_jmps_return((#[trigger] blocks[i]).term.jmps@)
+}
+
+/// `t` is the tid of a NON-RETURNING function of the program: a function without any return instruction (the artificial sink
+/// function does not count)
+pub open spec fn nz_nonret(subs: Map<Tid, Term<Sub>>, t: Tid) -> bool {
+    exists |k: Tid| #[trigger] subs.contains_key(k) && subs[k].tid == t && !nz_blocks_return(subs[k].term.blocks@) && t != nz_sink_sub()
+}
+
+/// ... among the first `n` functions of the iteration `s`
+pub open spec fn nz_nonret_n(s: Seq<(&Tid, &Term<Sub>)>, n: int, t: Tid) -> bool {
+    exists |j: int| 0 <= j < n && (#[trigger] s[j]).1.tid == t && !nz_blocks_return(s[j].1.term.blocks@) && t != nz_sink_sub()
+}
+
+/// some block of the list carries the name of an artificial sink block with this suffix
+pub open spec fn nz_has_sink(blocks: Seq<Term<Blk>>, suffix: Seq<char>) -> bool {
+    exists |i: int| 0 <= i < blocks.len() && nz_is_sink_blk((#[trigger] blocks[i]).tid, suffix)
+}
+
+/// THE RULE for one jump of function `f` (property: "calls to non-returning functions return to the caller's artificial sink"):
+/// a direct call WITH a return target that does not already return to the sink of `f`, and whose target is an extern symbol
+/// flagged no_return or (no extern symbol and) a non-returning function, returns to the artificial sink block of `f`;
+/// everything else is unchanged.
+pub open spec fn nz_noret(j: Jmp, f: Tid, ext: Map<Tid, ExternSymbol>, nr: Set<Tid>) -> Jmp {
+    match j {
+        Jmp::Call { target, return_: Some(r) } =>
+            if nz_is_sink_blk(r, nz_sfx(f)) { j }
+            else if ext.contains_key(target) { if ext[target].no_return { Jmp::Call { target, return_: Some(nz_sink_blk(nz_sfx(f))) } } else { j } }
+            else if nr.contains(target) { Jmp::Call { target, return_: Some(nz_sink_blk(nz_sfx(f))) } }
+            else { j },
+        _ => j,
+    }
+}
+
+pub open spec fn nz_noret_blk(b0: Term<Blk>, b1: Term<Blk>, f: Tid, ext: Map<Tid, ExternSymbol>, nr: Set<Tid>) -> bool {
+    &&& b1.tid == b0.tid
+    &&& b1.term.defs == b0.term.defs
+    &&& b1.term.indirect_jmp_targets == b0.term.indirect_jmp_targets
+    &&& b1.term.jmps@.len() == b0.term.jmps@.len()
+    &&& forall |j: int| 0 <= j < b0.term.jmps@.len() ==> (#[trigger] b1.term.jmps@[j]).tid == b0.term.jmps@[j].tid
+            && b1.term.jmps@[j].term == nz_noret(b0.term.jmps@[j].term, f, ext, nr)
+}
+
+/// some jump of the first `n` blocks (and the first `m` jumps of block number `n`) was retargeted by the rule
+pub open spec fn nz_noret_changed(blocks: Seq<Term<Blk>>, f: Tid, ext: Map<Tid, ExternSymbol>, nr: Set<Tid>, n: int, m: int) -> bool {
+    ||| exists |i: int, j: int| 0 <= i < n && i < blocks.len() && 0 <= j < (#[trigger] blocks[i]).term.jmps@.len()
+            && nz_noret((#[trigger] blocks[i].term.jmps@[j]).term, f, ext, nr) != blocks[i].term.jmps@[j].term
+    ||| exists |j: int| 0 <= n < blocks.len() && 0 <= j < m && j < blocks[n].term.jmps@.len()
+            && nz_noret((#[trigger] blocks[n].term.jmps@[j]).term, f, ext, nr) != blocks[n].term.jmps@[j].term
+}
+
+/// function `s1` is function `s0` after the pass: the same blocks with the rule applied to every jump, and -- iff a jump was
+/// retargeted and no block carried the name of the function's artificial sink -- ONE more block at the end: that sink
+pub open spec fn nz_noret_sub(s0: Term<Sub>, s1: Term<Sub>, ext: Map<Tid, ExternSymbol>, nr: Set<Tid>) -> bool {
+    let n0 = s0.term.blocks@.len() as int;
+    let changed = nz_noret_changed(s0.term.blocks@, s0.tid, ext, nr, n0, 0);
+    let add = changed && !nz_has_sink(s0.term.blocks@, nz_sfx(s0.tid));
+    &&& s1.tid == s0.tid
+    &&& s1.term.name == s0.term.name
+    &&& s1.term.calling_convention == s0.term.calling_convention
+    &&& s1.term.blocks@.len() == (if add { n0 + 1 } else { n0 })
+    &&& forall |i: int| 0 <= i < n0 ==> nz_noret_blk(s0.term.blocks@[i], #[trigger] s1.term.blocks@[i], s0.tid, ext, nr)
+    &&& add ==> nz_is_sink_block_term(s1.term.blocks@[n0], nz_sfx(s0.tid))
+}
+
+/// the whole pass: every function but the artificial sink function
+pub open spec fn nz_noret_post(subs0: Map<Tid, Term<Sub>>, subs1: Map<Tid, Term<Sub>>, ext: Map<Tid, ExternSymbol>, nr: Set<Tid>) -> bool {
+    &&& subs1.dom() =~= subs0.dom()
+    &&& forall |k: Tid| #[trigger] subs0.contains_key(k) ==>
+            if subs0[k].tid == nz_sink_sub() { subs1[k] == subs0[k] } else { nz_noret_sub(subs0[k], subs1[k], ext, nr) }
+}
+
+/// `nr` is the set of the tids of the non-returning functions
+pub open spec fn nz_nonret_set(nr: Set<Tid>, subs: Map<Tid, Term<Sub>>) -> bool {
+    forall |t: Tid| #[trigger] nr.contains(t) <==> nz_nonret(subs, t)
+}
+
+// ---- pass: blocks contained in several functions ----------------------------------------------------------------------------------
+
+/// the block tid a jump names inside its function: target of a (conditional) branch, return target of a call
+pub open spec fn nz_intra_target(j: Jmp) -> Option<Tid> {
+    match j {
+        Jmp::Branch(t) => Some(t),
+        Jmp::CBranch { target, condition } => Some(target),
+        Jmp::Call { target, return_ } => return_,
+        Jmp::CallInd { target, return_ } => return_,
+        Jmp::CallOther { description, return_ } => return_,
+        Jmp::BranchInd(e) => None,
+        Jmp::Return(e) => None,
+    }
+}
+
+/// block `b1` is a copy of block `b0` with `suffix` appended to the tid of the block, of its defs and of its jumps;
+/// the instructions themselves, all jump / return targets and the hints are those of `b0`
+pub open spec fn nz_clone_sfx(b0: Term<Blk>, b1: Term<Blk>, suffix: Seq<char>) -> bool {
+    &&& b1.tid == nz_with(b0.tid, suffix)
+    &&& b1.term.indirect_jmp_targets == b0.term.indirect_jmp_targets
+    &&& b1.term.defs@.len() == b0.term.defs@.len()
+    &&& forall |d: int| 0 <= d < b0.term.defs@.len() ==> (#[trigger] b1.term.defs@[d]).tid == nz_with(b0.term.defs@[d].tid, suffix)
+            && b1.term.defs@[d].term == b0.term.defs@[d].term
+    &&& b1.term.jmps@.len() == b0.term.jmps@.len()
+    &&& forall |j: int| 0 <= j < b0.term.jmps@.len() ==> (#[trigger] b1.term.jmps@[j]).tid == nz_with(b0.term.jmps@[j].tid, suffix)
+            && b1.term.jmps@[j].term == b0.term.jmps@[j].term
+}
+
+/// THE RULE for one block tid named inside function `f` (a target of a branch, a return target, a hint): a tid that the map
+/// `home` (term tid -> tid of the function that lists the term) does not send to `f` gets the suffix of `f`
+pub open spec fn nz_fix(t: Tid, f: Tid, home: Map<Tid, Tid>) -> Tid {
+    if home.contains_key(t) && home[t] == f { t } else { nz_with(t, nz_sfx(f)) }
+}
+
+pub open spec fn nz_fix_opt(r: Option<Tid>, f: Tid, home: Map<Tid, Tid>) -> Option<Tid> {
+    match r { Some(t) => Some(nz_fix(t, f, home)), None => None }
+}
+
+/// ... for one jump: targets of Branch / CBranch, return targets of Call / CallInd / CallOther; call targets are NOT touched
+pub open spec fn nz_resfx(j: Jmp, f: Tid, home: Map<Tid, Tid>) -> Jmp {
+    match j {
+        Jmp::Branch(t) => Jmp::Branch(nz_fix(t, f, home)),
+        Jmp::CBranch { target, condition } => Jmp::CBranch { target: nz_fix(target, f, home), condition },
+        Jmp::Call { target, return_ } => Jmp::Call { target, return_: nz_fix_opt(return_, f, home) },
+        Jmp::CallInd { target, return_ } => Jmp::CallInd { target, return_: nz_fix_opt(return_, f, home) },
+        Jmp::CallOther { description, return_ } => Jmp::CallOther { description, return_: nz_fix_opt(return_, f, home) },
+        Jmp::BranchInd(e) => j,
+        Jmp::Return(e) => j,
+    }
+}
+
+pub open spec fn nz_resfx_blk(b0: Term<Blk>, b1: Term<Blk>, f: Tid, home: Map<Tid, Tid>) -> bool {
+    &&& b1.tid == b0.tid
+    &&& b1.term.defs == b0.term.defs
+    &&& b1.term.jmps@.len() == b0.term.jmps@.len()
+    &&& forall |j: int| 0 <= j < b0.term.jmps@.len() ==> (#[trigger] b1.term.jmps@[j]).tid == b0.term.jmps@[j].tid
+            && b1.term.jmps@[j].term == nz_resfx(b0.term.jmps@[j].term, f, home)
+    &&& b1.term.indirect_jmp_targets@.len() == b0.term.indirect_jmp_targets@.len()
+    &&& forall |h: int| 0 <= h < b0.term.indirect_jmp_targets@.len() ==> #[trigger] b1.term.indirect_jmp_targets@[h] == nz_fix(b0.term.indirect_jmp_targets@[h], f, home)
+}
+
+pub open spec fn nz_resfx_sub(s0: Term<Sub>, s1: Term<Sub>, home: Map<Tid, Tid>) -> bool {
+    &&& s1.tid == s0.tid
+    &&& s1.term.name == s0.term.name
+    &&& s1.term.calling_convention == s0.term.calling_convention
+    &&& s1.term.blocks@.len() == s0.term.blocks@.len()
+    &&& forall |i: int| 0 <= i < s0.term.blocks@.len() ==> nz_resfx_blk(s0.term.blocks@[i], #[trigger] s1.term.blocks@[i], s0.tid, home)
+}
+
+pub open spec fn nz_resfx_post(subs0: Map<Tid, Term<Sub>>, subs1: Map<Tid, Term<Sub>>, home: Map<Tid, Tid>) -> bool {
+    &&& subs1.dom() =~= subs0.dom()
+    &&& forall |k: Tid| #[trigger] subs0.contains_key(k) ==> nz_resfx_sub(subs0[k], subs1[k], home)
+}
+
+/// the key of the function a position lies in
+pub open spec fn nz_pos_key(p: NzPos) -> Tid {
+    match p {
+        NzPos::Prog => arbitrary(),
+        NzPos::Sub(k) => k,
+        NzPos::Blk(k, i) => k,
+        NzPos::Def(k, i, j) => k,
+        NzPos::Jmp(k, i, j) => k,
+    }
+}
+
+/// generate_tid_to_sub_tid_map: the tid of every function, block, def and jump is mapped to the tid of the function it lies in
+pub open spec fn nz_home_ok(home: Map<Tid, Tid>, prog: Tid, subs: Map<Tid, Term<Sub>>) -> bool {
+    forall |p: NzPos| #[trigger] nz_pos_ok(subs, p) && !(p is Prog) ==>
+        home.contains_key(nz_tid_at(prog, subs, p)) && home[nz_tid_at(prog, subs, p)] == subs[nz_pos_key(p)].tid
+}
+
+/// proof device: every entry of the map is the tid of some position, mapped to the tid of that position's function
+pub open spec fn nz_home_entries(home: Map<Tid, Tid>, prog: Tid, subs: Map<Tid, Term<Sub>>) -> bool {
+    forall |t: Tid| #[trigger] home.contains_key(t) ==> exists |p: NzPos| #[trigger] nz_pos_ok(subs, p) && !(p is Prog) && nz_tid_at(prog, subs, p) == t
+        && home[t] == subs[nz_pos_key(p)].tid
+}
+
+/// proof device: the tids of a block / a function and of everything below it are keys of the map
+pub open spec fn nz_cover_blk<V>(m: Map<Tid, V>, b: Term<Blk>) -> bool {
+    &&& m.contains_key(b.tid)
+    &&& forall |d: int| 0 <= d < b.term.defs@.len() ==> m.contains_key((#[trigger] b.term.defs@[d]).tid)
+    &&& forall |j: int| 0 <= j < b.term.jmps@.len() ==> m.contains_key((#[trigger] b.term.jmps@[j]).tid)
+}
+
+pub open spec fn nz_cover_sub<V>(m: Map<Tid, V>, s: Term<Sub>) -> bool {
+    &&& m.contains_key(s.tid)
+    &&& forall |i: int| 0 <= i < s.term.blocks@.len() ==> nz_cover_blk(m, #[trigger] s.term.blocks@[i])
+}
+
+pub open spec fn nz_grows<V>(m0: Map<Tid, V>, m1: Map<Tid, V>) -> bool {
+    forall |t: Tid| #[trigger] m0.contains_key(t) ==> m1.contains_key(t)
+}
+
+/// generate_block_tid_to_block_term_map: every block tid is a key; every entry is a block of the program with that tid
+pub open spec fn nz_blkmap_ok(bm: Map<Tid, &Term<Blk>>, subs: Map<Tid, Term<Sub>>) -> bool {
+    &&& forall |k: Tid, i: int| #[trigger] nz_blk_at(subs, k, i, subs[k].term.blocks@[i].tid) ==> bm.contains_key(subs[k].term.blocks@[i].tid)
+    &&& forall |t: Tid| #[trigger] bm.contains_key(t) ==> exists |k: Tid, i: int| #[trigger] nz_blk_at(subs, k, i, t) && *bm[t] == subs[k].term.blocks@[i]
+}
+
+/// block `b` names the block tid `u`: `u` is the target of a branch / the return target of a call among its jumps, or one of
+/// its indirect-jump target hints
+pub open spec fn nz_names(b: Term<Blk>, u: Tid) -> bool {
+    ||| exists |j: int| 0 <= j < b.term.jmps@.len() && nz_intra_target((#[trigger] b.term.jmps@[j]).term) == Some(u)
+    ||| exists |h: int| 0 <= h < b.term.indirect_jmp_targets@.len() && #[trigger] b.term.indirect_jmp_targets@[h] == u
+}
+
+/// `path` starts at a block listed in function `s` and every tid on it names the next one (through the block map `bm`)
+pub open spec fn nz_path(s: Term<Sub>, bm: Map<Tid, &Term<Blk>>, path: Seq<Tid>) -> bool {
+    &&& path.len() > 0
+    &&& exists |i: int| 0 <= i < s.term.blocks@.len() && (#[trigger] s.term.blocks@[i]).tid == path[0]
+    &&& forall |n: int| 0 <= n < path.len() - 1 ==> bm.contains_key(#[trigger] path[n]) && nz_names(*bm[path[n]], path[n + 1])
+}
+
+/// block tid `t` is CONTAINED in function `s`: reachable from a listed block through jumps, returns from calls and hints
+pub open spec fn nz_reachable(s: Term<Sub>, bm: Map<Tid, &Term<Blk>>, t: Tid) -> bool {
+    exists |path: Seq<Tid>| #[trigger] nz_path(s, bm, path) && path.last() == t
+}
+
+pub open spec fn nz_in(w: Seq<Tid>, u: Tid) -> bool {
+    exists |i: int| 0 <= i < w.len() && #[trigger] w[i] == u
+}
+
+/// `set` is the set of the block tids contained in function `s`: it has the listed blocks, is closed under "names", and
+/// has nothing that is not reachable
+pub open spec fn nz_contained_ok(set: Set<Tid>, s: Term<Sub>, bm: Map<Tid, &Term<Blk>>) -> bool {
+    &&& forall |i: int| 0 <= i < s.term.blocks@.len() ==> set.contains((#[trigger] s.term.blocks@[i]).tid)
+    &&& forall |t: Tid, u: Tid| set.contains(t) && bm.contains_key(t) && #[trigger] nz_names(*bm[t], u) ==> set.contains(u)
+    &&& forall |t: Tid| #[trigger] set.contains(t) ==> nz_reachable(s, bm, t)
+}
+
+/// generate_sub_tid_to_contained_block_tids_map: per function tid the set of contained block tids
+pub open spec fn nz_submap_ok(m: Map<Tid, HashSet<Tid>>, subs: Map<Tid, Term<Sub>>, bm: Map<Tid, &Term<Blk>>) -> bool {
+    forall |k: Tid| #[trigger] subs.contains_key(k) ==> m.contains_key(subs[k].tid) && nz_contained_ok(m[subs[k].tid]@, subs[k], bm)
+}
+
+/// two functions stored under different keys have different tids
+pub open spec fn nz_sub_tids_distinct(subs: Map<Tid, Term<Sub>>) -> bool {
+    forall |k1: Tid, k2: Tid| #[trigger] subs.contains_key(k1) && #[trigger] subs.contains_key(k2) && subs[k1].tid == subs[k2].tid ==> k1 == k2
+}
+
+/// worklist invariant: `t` is done (in the set) or waiting (on the worklist)
+pub open spec fn nz_seen(set: Set<Tid>, w: Seq<Tid>, t: Tid) -> bool {
+    set.contains(t) || nz_in(w, t)
+}
+
+/// worklist invariant, for the function `s`: listed blocks seen; what a done block other than `cur` names is seen; everything seen is reachable
+#[verifier::opaque]
+pub open spec fn nz_wl_inv(set: Set<Tid>, w: Seq<Tid>, s: Term<Sub>, bm: Map<Tid, &Term<Blk>>, cur: Option<Tid>) -> bool {
+    &&& forall |i: int| 0 <= i < s.term.blocks@.len() ==> nz_seen(set, w, (#[trigger] s.term.blocks@[i]).tid)
+    &&& forall |t: Tid, u: Tid| set.contains(t) && Some(t) != cur && bm.contains_key(t) && #[trigger] nz_names(*bm[t], u) ==> nz_seen(set, w, u)
+    &&& forall |t: Tid| #[trigger] nz_seen(set, w, t) ==> nz_reachable(s, bm, t)
+}
+
+/// the map `home` sends the tid `t` to the function tid `f`
+pub open spec fn nz_home_is(home: Map<Tid, Tid>, t: Tid, f: Tid) -> bool {
+    home.contains_key(t) && home[t] == f
+}
+
+/// the blocks `v` are, in some order and each exactly once, the copies (with the suffix of function `f`) of the blocks whose
+/// tid is contained in `f` (set `contained`) but not at home in `f`; `src` lists the tids of the originals
+pub open spec fn nz_additional(v: Seq<Term<Blk>>, src: Seq<Tid>, contained: Set<Tid>, f: Tid, home: Map<Tid, Tid>, bm: Map<Tid, &Term<Blk>>) -> bool {
+    &&& src.len() == v.len()
+    &&& forall |i: int, j: int| 0 <= i < j < src.len() ==> #[trigger] src[i] != #[trigger] src[j]
+    &&& forall |i: int| 0 <= i < src.len() ==> contained.contains(#[trigger] src[i]) && !nz_home_is(home, src[i], f)
+            && bm.contains_key(src[i]) && nz_clone_sfx(*bm[src[i]], v[i], nz_sfx(f))
+    &&& forall |t: Tid| contained.contains(t) && !nz_home_is(home, t, f) ==> nz_in(src, t)
+}
+
+pub open spec fn nz_additional_ok(v: Seq<Term<Blk>>, contained: Set<Tid>, f: Tid, home: Map<Tid, Tid>, bm: Map<Tid, &Term<Blk>>) -> bool {
+    exists |src: Seq<Tid>| #[trigger] nz_additional(v, src, contained, f, home, bm)
+}
+
+/// duplicate_blocks_contained_in_several_subs: per function tid the list of the new blocks
+pub open spec fn nz_addmap_ok(m: Map<Tid, Vec<Term<Blk>>>, subs: Map<Tid, Term<Sub>>, sm: Map<Tid, HashSet<Tid>>, home: Map<Tid, Tid>, bm: Map<Tid, &Term<Blk>>) -> bool {
+    forall |k: Tid| #[trigger] subs.contains_key(k) ==> m.contains_key(subs[k].tid)
+        && nz_additional_ok(m[subs[k].tid]@, sm[subs[k].tid]@, subs[k].tid, home, bm)
+}
+
+/// PRECONDITION of duplicate_blocks_contained_in_several_subs (its two `unwrap()`s): every function tid is a key of the map of
+/// contained blocks, and every contained tid that is not at home in the function is the tid of a block
+pub open spec fn nz_dup_pre(subs: Map<Tid, Term<Sub>>, sm: Map<Tid, HashSet<Tid>>, home: Map<Tid, Tid>, bm: Map<Tid, &Term<Blk>>) -> bool {
+    forall |k: Tid| #[trigger] subs.contains_key(k) ==> sm.contains_key(subs[k].tid)
+        && forall |t: Tid| #[trigger] sm[subs[k].tid]@.contains(t) && !nz_home_is(home, t, subs[k].tid) ==> bm.contains_key(t)
+}
+
+/// loop invariant of the inner loop: after the first `n` elements of the iteration `it` over the set
+pub open spec fn nz_additional_n(v: Seq<Term<Blk>>, src: Seq<Tid>, pos: Seq<int>, it: Seq<&Tid>, n: int, f: Tid, home: Map<Tid, Tid>, bm: Map<Tid, &Term<Blk>>) -> bool {
+    &&& src.len() == v.len() && pos.len() == v.len()
+    &&& forall |i: int| 0 <= i < pos.len() ==> 0 <= #[trigger] pos[i] < n && pos[i] < it.len() && *it[pos[i]] == src[i]
+    &&& forall |i: int, j: int| 0 <= i < j < pos.len() ==> #[trigger] pos[i] < #[trigger] pos[j]
+    &&& forall |i: int| 0 <= i < src.len() ==> !nz_home_is(home, #[trigger] src[i], f) && bm.contains_key(src[i]) && nz_clone_sfx(*bm[src[i]], v[i], nz_sfx(f))
+    &&& forall |j: int| 0 <= j < n && j < it.len() && !nz_home_is(home, *#[trigger] it[j], f) ==> nz_in(src, *it[j])
+}
+
+/// `s` is an iteration over the elements of `set` (every element of the sequence is a member, every member occurs, once)
+pub open spec fn nz_set_iter_of(s: Seq<&Tid>, set: Set<Tid>) -> bool {
+    &&& s.no_duplicates()
+    &&& forall |i: int| 0 <= i < s.len() ==> set.contains(*#[trigger] s[i])
+    &&& forall |k: Tid| set.contains(k) ==> exists |i: int| 0 <= i < s.len() && *#[trigger] s[i] == k
+}
